@@ -566,6 +566,38 @@ func instrReaches(a, b ssa.Instruction) bool {
 // package call of the function is behind the other side, and no instruction
 // of the package stores anything else to f (never decremented, never reset).
 func (w *World) workBudget(fn *ssa.Function) *guardInfo {
+	if g := w.workBudgetIn(fn, fn, nil); g != nil {
+		return g
+	}
+	// the budget kept by a leaf helper called first thing on the receiver,
+	// which panics or reports the excess to a caller that obeys
+	if len(fn.Blocks) == 0 {
+		return nil
+	}
+	for _, in := range fn.Blocks[0].Instrs {
+		ci, ok := in.(ssa.CallInstruction)
+		if !ok {
+			continue
+		}
+		if ci.Common().IsInvoke() {
+			return nil
+		}
+		c := ci.Common().StaticCallee()
+		if c == nil || !w.inPkg(c) {
+			continue
+		}
+		if len(ci.Common().Args) == 0 || !isRecv(ci.Common().Args[0]) || !w.isLeaf(c) || len(c.Blocks) == 0 {
+			return nil
+		}
+		return w.workBudgetIn(c, fn, ci)
+	}
+	return nil
+}
+
+// workBudgetIn looks for the budget test in fn; when fn is a helper of
+// caller (site != nil), the excess side must panic or return a set value that
+// the caller obeys.
+func (w *World) workBudgetIn(fn, caller *ssa.Function, site ssa.CallInstruction) *guardInfo {
 	for _, b := range fn.Blocks {
 		ifi := blockIf(b)
 		if ifi == nil {
@@ -665,9 +697,23 @@ func (w *World) workBudget(fn *ssa.Function) *guardInfo {
 		if bad {
 			continue
 		}
+		if site != nil {
+			panics := true
+			for blk := range reachableFrom(exc, nil) {
+				if blk == okS || okS.Dominates(blk) {
+					continue
+				}
+				if _, isRet := blk.Instrs[len(blk.Instrs)-1].(*ssa.Return); isRet {
+					panics = false
+				}
+			}
+			if !panics && !(fn.Signature.Results().Len() == 1 && sideReturnsSet(exc) && w.callerObeys(caller, site)) {
+				continue
+			}
+		}
 		// a depth guard's own counter is decremented, so it never gets here; a
 		// counter that is the depth counter without its decrement is reported by T-DEPTH
-		if dg := w.depthGuard(fn); dg != nil && dg.Field == fld.Name() {
+		if dg := w.depthGuard(caller); dg != nil && dg.Field == fld.Name() {
 			continue
 		}
 		return &guardInfo{Field: fld.Name(), Limit: limit}
